@@ -531,9 +531,15 @@ pub fn minimise_schedule(s: &dyn Scenario, params: &Value, class: &str, budget_s
     let t0 = Instant::now();
     let o = guarded_execute(s, params, true);
     if !o.violations.iter().any(|v| v.class == class) {
+        if std::env::var("VERIF_VERBOSE").is_ok() {
+            eprintln!("[minimise] class {class} not reproduced: {:?} {:?}", o.violations.iter().map(|v| v.class.clone()).collect::<Vec<_>>(), o.harness_error);
+        }
         return None;
     }
     let sched = o.schedule?;
+    if std::env::var("VERIF_VERBOSE").is_ok() {
+        eprintln!("[minimise] recorded schedule of {} decisions", sched.len());
+    }
     let with_tasks = |tasks: &[u32]| -> Value { with(params, "sim", with(sim, "replay_tasks", json!(tasks))) };
     let reproduces = |tasks: &[u32]| -> bool {
         let o = guarded_execute(s, &with_tasks(tasks), false);
